@@ -900,7 +900,7 @@ func runHistory(spec *routeSpec, hist []hop, count, keepDB bool) (res routeResul
 		switch h.Op {
 		case "ins":
 			curOp = "insert"
-			done, failed, g := tryFaulted(h, "insert", func(ctx context.Context) error { return tree.Insert(ctx, h.k, h.v) })
+			done, failed, g := tryFaulted(h, "insert", func(ctx context.Context) error { return tree.Insert(ctx, h.k, nilIfEmpty(h.k, h.v)) })
 			if g != nil {
 				return res, g
 			}
@@ -1719,3 +1719,12 @@ func replay(file string) {
 }
 
 func jsonUnmarshal(b []byte, v any) error { return json.Unmarshal(b, v) }
+
+// nilIfEmpty passes an empty value as a NIL slice for the keys of even length: Insert documents a nil
+// value as the empty value, so the model is unchanged (a function of the key, no PRNG draw).
+func nilIfEmpty(k, v []byte) []byte {
+	if v != nil && len(v) == 0 && len(k)%2 == 0 {
+		return nil
+	}
+	return v
+}
